@@ -971,6 +971,10 @@ func (h *handler) resetSyncer(failed Syncer) {
 	if h.syncer == failed {
 		h.syncer = nil
 	}
+	// The same goes for the protocol information that the publisher gave
+	// when the client was made: it is kept per peer, and if it arrived
+	// damaged, every new client would be built from it.
+	h.subscriber.ipniSync.ForgetPeer(h.peerID)
 }
 
 // asyncSyncAdChain processes the latest announce message received over pubsub
